@@ -126,16 +126,39 @@ def run(tier, seed, replay=None):
                     if got != exp:
                         run.fail("impl-vs-spec", {"value": v, "route": route},
                                  {"impl": got, "spec": exp})
+    # strings through the command line and the configuration file
+    if not replay or replay["case"].get("route") in ("cli-str", "config-str"):
+        svals = ["+15", "1_5", "1_6_3_8_4", "١٥", " 15", "15 ", "0x10", "15.0", "²", "-15", "015",
+                 "16", "16384", "16385", "1e5"]
+        if replay:
+            svals = [replay["case"]["string"]]
+        with sandbox("c12s") as box:
+            root = os.path.join(box, "p")
+            write_tree(root, [("a", b"x" * 100), ("b/c", b"y" * 40000)])
+            for sv in svals:
+                for route in ("cli", "config"):
+                    if route == "config" and sv != sv.strip():
+                        continue        # configparser strips surrounding blanks itself
+                    got = _route(route, sv, root, box, PLE)
+                    want = spec_str(sv)
+                    exp = ("ok", want) if want is not None else ("ple", None)
+                    run.case(f"{route}-str:{sv}", True, classes=[route + "-str"])
+                    if got != exp:
+                        run.fail("impl-vs-spec", {"string": sv, "route": route + "-str"},
+                                 {"impl": got, "spec": exp})
     # automatic choice recorded by the creators: same path, content resized between creates
     if not replay or replay["case"].get("route") == "auto-create":
         with sandbox("c12a") as box:
             root = os.path.join(box, "p")
-            write_tree(root, [("small", b"x" * 10)])
-            big = os.path.join(root, "big")
+            write_tree(root, [("small", b"x" * 10), (".hidden/x", b""), ("d/.keep", b"")])
             seq = [50_331_648, 10_240, 16_384_001, 16_383_000, 0, 33_000_000, 4096]
             rng.shuffle(seq)
-            prev_size = prev_pl = None
-            for size in (seq if tier != "quick" else seq[:5]):
+            placements = ["big", ".hidden/big", "d/.big"]
+            for step, size in enumerate(seq if tier != "quick" else seq[:6]):
+                for p in placements:
+                    if os.path.exists(os.path.join(root, p)):
+                        os.remove(os.path.join(root, p))
+                big = os.path.join(root, placements[step % 3])
                 with open(big, "ab") as fd:
                     fd.truncate(size)
                 for kind in ("v1", "a2"):
